@@ -113,8 +113,8 @@ PROPS["C03"] = dict(
 
 PROPS["C05"] = dict(
     modules=["Sth.Props.C01", "Sth.Props.C08", "Sth.Props.C05", "Sth.Props.C05Pools"],
-    theorems=list(CORE_RL) + ['Sth.C05_wf_invariant', 'Sth.C05_linearizable', 'Sth.C05_log_faithful', 'Sth.C05_entry_during_call', 'Sth.C05_real_time', 'Sth.C05_owned_keys_no_overlap', 'Sth.C05_linearizable_owned', 'Sth.C05_put_index_publishes', 'Sth.C05_read_your_writes', 'Sth.C05_get_sees_contents', 'Sth.C05_keys_do_not_interfere', 'Sth.C05_frame_step', 'Sth.C05_freelist_exactly_once', 'Sth.C05_no_leak', 'Sth.C05_quiescent_exactly_once', 'Sth.C05_double_free_without_premise', 'Sth.C05_overlap_put_remove_errs', 'Sth.C05_overlap_new_puts_lose_one', 'Sth.C05_overlap_new_puts_not_legal', 'Sth.C05_pools_section_effect', 'Sth.C05_pools_view_invariant', 'Sth.C05_pools_invariant', 'Sth.C05_pools_lockAfterSwap_lost_for_good', 'Sth.C05_pools_lockAfterSwap_temporarily_invisible', 'Sth.C05_pools_lockAfterSwap_rmw_on_stale', 'Sth.C05_pools_skipPools_stale'],
-    runs=[dict(engine="sched", quick=1000, thorough=20000, extra=["-profile", "c05"], nontrivial=["overlapping-calls", "conc-model-agrees"])],
+    theorems=list(CORE_RL) + ['Sth.C05_wf_invariant', 'Sth.C05_linearizable', 'Sth.C05_log_faithful', 'Sth.C05_entry_during_call', 'Sth.C05_real_time', 'Sth.C05_owned_keys_no_overlap', 'Sth.C05_linearizable_owned', 'Sth.C05_put_index_publishes', 'Sth.C05_read_your_writes', 'Sth.C05_get_sees_contents', 'Sth.C05_keys_do_not_interfere', 'Sth.C05_frame_step', 'Sth.C05_freelist_exactly_once', 'Sth.C05_no_leak', 'Sth.C05_quiescent_exactly_once', 'Sth.C05_double_free_without_premise', 'Sth.C05_overlap_put_remove_errs', 'Sth.C05_overlap_new_puts_lose_one', 'Sth.C05_overlap_new_puts_not_legal', 'Sth.C05_pools_section_effect', 'Sth.C05_pools_view_invariant', 'Sth.C05_pools_invariant', 'Sth.C05_pools_lockAfterSwap_lost_for_good', 'Sth.C05_pools_lockAfterSwap_temporarily_invisible', 'Sth.C05_pools_lockAfterSwap_rmw_on_stale', 'Sth.C05_pools_skipPools_stale', 'Sth.C05_pools_register', 'Sth.C05_pools_read_your_writes', 'Sth.C05_pools_refines_conc_section', 'Sth.C05_pools_refines_conc_read', 'Sth.C05_pools_refines_conc_run', 'Sth.C05_pools_primary_section_effect', 'Sth.C05_pools_primary_write_once', 'Sth.C05_pools_primary_get', 'Sth.C05_pools_primary_skipPools_eof', 'Sth.C05_pools_primary_lockAfterSwap_wrong_record'],
+    runs=[dict(engine="sched", quick=1000, thorough=20000, extra=["-profile", "c05"], nontrivial=["overlapping-calls", "conc-model-agrees", "pools-model-agrees"])],
     shrink_budget=0,
     rule="2-3 threads of 1-3 Put/Get/Has/GetSize/Remove calls on 2-4 keys clustered in one or two buckets with shared prefixes, plus a "
          "Flush thread, run on the real store under a cooperative scheduler that parks every thread at named points between the lock "
@@ -124,7 +124,10 @@ PROPS["C05"] = dict(
          "of the index, primary, freelist and store is a scheduling point too (verifhook.Mutex/RWMutex), so that a critical section split "
          "in two is interleaved; half of the programs give every key one writer (no overlap of mutators of one key: known finding D17 "
          "cannot mask interference between keys). Schedules over named points only are replayed on the section-level model "
-         "Sth/Model/Conc.lean: every return value (Update errors and lost Puts of D17 included) and the final contents must agree. "
+         "Sth/Model/Conc.lean: every return value (Update errors and lost Puts of D17 included) and the final contents must agree; and on "
+         "the pool-swap model Sth/Model/ConcPools.lean (Index.Get = info section + file read, one mutator section per completed Put/Remove, "
+         "Index.Flush = swap/append/publish/release at its hook points): every section the code took must be enabled in the model and "
+         "every Get/Has/GetSize must return the model's bucket view. "
          "Non-trivial = distinct schedule in which calls of different threads overlap / the section model agreed.",
     assumptions=["interleavings at the granularity of the named points (lock-section boundaries); atomicity of the sections themselves is C16",
                  "blocking is detected with a 30 ms grace period; a thread that arrives later is observed asynchronously"],
@@ -255,10 +258,11 @@ PROPS["C09"] = dict(
 )
 
 PROPS["C10"] = dict(
-    modules=["Sth.Props.C10", "Sth.Props.C10b", "Sth.Props.C01", "Sth.Props.C08"],
+    modules=["Sth.Props.C10", "Sth.Props.C10b", "Sth.Props.C10c", "Sth.Props.C01", "Sth.Props.C08"],
     theorems=["Sth.C10_chunk_concat", "Sth.C10_chunk_shape", "Sth.C10_remap_correct", "Sth.C10_remap_reject", "Sth.C10_remap_total",
               "Sth.C10_upgrade_contents", "Sth.C10_upgrade_reads", "Sth.C10_upgrade_records_whole", "Sth.C10_upgrade_fsck",
-              "Sth.C10_upgrade_resume_partial", "Sth.C10_completed_opens_plainly", "Sth.C10_D14_marker_window", "Sth.C10_D14_pool_lost"] + list(CORE_RL),
+              "Sth.C10_upgrade_resume_partial", "Sth.C10_completed_opens_plainly", "Sth.C10_D14_marker_window", "Sth.C10_D14_pool_lost",
+              "Sth.C10_upgrade_contents_bad", "Sth.C10_upgrade_bad_single", "Sth.C10_bad_entries_absent"] + list(CORE_RL),
     runs=[dict(engine="seq", quick=250, thorough=5000, extra=["-profile", "c10"], nontrivial=["multi-chunk", "legacy-freelist", "legacy-bad-offset", "upgrade-bytes-agree"]),
           dict(engine="crash", quick=16, thorough=500, extra=["-profile", "c10"], nontrivial=["at:upgrade", "at:remap"])],
     shrink_budget=0,
